@@ -7,6 +7,15 @@
 //! references. A family is the FULL product of its slot alphabets, enumerated by a mixed-radix index. On every
 //! document a fixed list of query instances (library function, argument) is evaluated.
 //!
+//! The property quantifies over ALL graphs, so besides the kind of every value the SIZE of the linked structure is
+//! a dimension of its own: family "scale" takes each link kind that a query follows from node to node (page tree
+//! /Kids with the /Parent links back up, outline /First, outline /Next, name tree /Kids) and enumerates the number
+//! n of linked nodes from 1 up to 16000 (thorough: 262144; around every limit one would pick: 255..258), the
+//! SHARING of nodes (a link array that lists the next node twice, an outline item whose /First and /Next are the
+//! same item: an acyclic graph of n nodes with 2^n paths) and what the last link refers to (nothing, a dangling
+//! id, the first node, itself). Legitimate work on these documents is linear in the number of objects, so the CPU
+//! budget of an evaluation is CPU_MS_RUN plus 10 microseconds per object of the document.
+//!
 //! Oracle (independent of the code under test): the property says every query "returns a value or an error";
 //! so the observation is made from OUTSIDE the query: each evaluation runs in a worker process with a CPU-time
 //! budget (ITIMER_PROF), a wall-clock backstop, an address-space limit and a 2 MiB stack, inside catch_unwind.
@@ -33,6 +42,8 @@ use std::panic::AssertUnwindSafe;
 
 const CPU_MS_RUN: u64 = 50; // CPU budget of one query evaluation (legitimate ones take microseconds)
 const CPU_MS_REPLAY: u64 = 500;
+const CPU_US_PER_OBJECT: u64 = 10; // added to the budget for every object of the document (queries are linear in the document)
+fn cpu_budget(base_ms: u64, doc: &Document) -> u64 { base_ms + doc.objects.len() as u64 * CPU_US_PER_OBJECT / 1000 }
 const WALL_S: i64 = 20; // wall-clock backstop for one evaluation
 const STACK: usize = 2 << 20; // stack of the evaluating thread (Rust's default for spawned threads)
 const AS_LIMIT: u64 = 4 << 30; // address space of a worker
@@ -240,7 +251,7 @@ fn run_inst(doc: &Document, kind: Kind, arg: ObjectId) -> Res {
                 let (lo, hi) = it.size_hint();
                 if let Some(h) = hi { if lo > h { model = Some(("pages-sound", format!("size_hint lower bound {} exceeds upper bound {}", lo, h))); } }
                 match it.next() { Some(id) => out.push(id), None => break }
-                if out.len() > 100_000 { model = Some(("pages-sound", "page_iter yielded more than 100000 ids on a document of at most a few hundred objects".into())); break; }
+                if out.len() > 100_000 + doc.objects.len() { model = Some(("pages-sound", format!("page_iter yielded more than {} ids on a document of {} objects", 100_000 + doc.objects.len(), doc.objects.len()))); break; }
             }
             if model.is_none() { if let Some(bad) = out.iter().find(|id| !is_page(doc, **id)) { model = Some(("pages-sound", format!("page_iter yields {:?}, which is not a dictionary of /Type /Page", bad))); } }
             Res { model, ..ok(!out.is_empty(), format!("{} pages", out.len())) }
@@ -338,6 +349,8 @@ struct Family {
     trailer: Dictionary,
     slots: Vec<Slot>,
     custom: Option<(fn(&[usize]) -> Document, Vec<usize>, Vec<usize>)>,
+    /// words for one member of a generated family (its documents are too large to be printed in full)
+    label: Option<fn(&[usize]) -> String>,
     insts: Vec<(Kind, ObjectId)>,
 }
 
@@ -453,9 +466,90 @@ fn build_uniform(dg: &[usize]) -> Document {
     make_doc(o, root_trailer())
 }
 
+// ---- scale: n linked nodes of one link kind, with or without sharing; digits = [n, shape, end]
+// there is deliberately no size between 12 and 40: 2^n steps are negligible up to 12 and never end from 40 on; in between a CPU
+// budget could not tell "slow" from "forever"
+const SCALE_NODES: [usize; 16] = [1, 2, 3, 8, 12, 40, 64, 255, 256, 257, 258, 1000, 4000, 16000, 65536, 262144];
+const SCALE_NODES_QUICK: usize = 14;
+const SCALE_SHAPES: [&str; 7] = [
+    "page tree: n /Type /Pages nodes under the root, each the only kid of the one above and pointing back to it with /Parent",
+    "page tree: as before but every /Kids array lists its kid twice (2^n paths to the page)",
+    "outline: n items, each the /First of the one before",
+    "outline: n items, each the /Next of the one before",
+    "outline: n items, each both the /First and the /Next of the one before (2^n paths to the last item)",
+    "name tree: n intermediate nodes under the /Dests root, each the only kid of the one above",
+    "name tree: as before but every /Kids array lists its kid twice (2^n paths to the leaf)",
+];
+const SCALE_ENDS: [&str; 4] = ["the last link leads to a proper leaf (or is absent)", "the last link is a dangling reference", "the last link refers back to the first node", "the last link refers to the last node itself"];
+const SCALE_DANGLING: u32 = 4_000_000;
+const SCALE_FIRST: u32 = 10; // id of the first of the n nodes
+
+fn build_scale(dg: &[usize]) -> Document {
+    let (len, shape, end) = (SCALE_NODES[dg[0]] as u32, dg[1], dg[2]);
+    let last = SCALE_FIRST + len - 1;
+    let times = |o: Object, w: usize| a(vec![o; w]);
+    let dest = || a(vec![r(3), n("Fit")]);
+    let mut o: BTreeMap<ObjectId, Object> = BTreeMap::new();
+    o.insert((1, 0), d(dictionary! { "Type" => n("Catalog"), "Pages" => r(2), "Outlines" => r(4), "Dests" => r(6) }));
+    o.insert((2, 0), d(dictionary! { "Type" => n("Pages"), "Kids" => a(vec![r(3)]), "Count" => i(1), "Resources" => d(dictionary! { "Font" => d(dictionary! { "F1" => r(9) }) }) }));
+    o.insert((3, 0), d(dictionary! { "Type" => n("Page"), "Parent" => r(2), "Contents" => r(7), "Annots" => a(vec![r(5)]) }));
+    o.insert((4, 0), d(dictionary! { "Type" => n("Outlines"), "First" => r(5) }));
+    o.insert((5, 0), d(dictionary! { "Title" => s(b"K"), "Dest" => s(b"k") }));
+    o.insert((6, 0), d(dictionary! { "Names" => a(vec![s(b"k"), r(8)]) }));
+    o.insert((7, 0), st(Dictionary::new(), TEXT));
+    o.insert((8, 0), d(dictionary! { "D" => dest() }));
+    o.insert((9, 0), font());
+    // where the last link goes: Some(target) or None for "a proper leaf"
+    let tail = |top: u32| match end { 0 => None, 1 => Some(r(SCALE_DANGLING)), 2 => Some(r(top)), _ => Some(r(last)) };
+    let set = |o: &mut BTreeMap<ObjectId, Object>, id: u32, k: &str, v: Object| { if let Some(Object::Dictionary(x)) = o.get_mut(&(id, 0)) { x.set(k, v); } };
+    match shape {
+        0 | 1 => {
+            let w = shape + 1;
+            set(&mut o, 2, "Kids", times(r(SCALE_FIRST), w));
+            for j in 0..len {
+                let id = SCALE_FIRST + j;
+                let kid = if id < last { r(id + 1) } else { tail(2).unwrap_or(r(3)) };
+                o.insert((id, 0), d(dictionary! { "Type" => n("Pages"), "Parent" => r(if j == 0 { 2 } else { id - 1 }), "Kids" => times(kid, w), "Count" => i(1) }));
+            }
+            set(&mut o, 3, "Parent", r(last));
+            // the /Parent links lead from the page up through the n nodes to the root; the root's own /Parent is the last link of that chain
+            if let Some(t) = match end { 0 => None, 1 => Some(r(SCALE_DANGLING)), 2 => Some(r(last)), _ => Some(r(2)) } { set(&mut o, 2, "Parent", t); }
+        }
+        2..=4 => {
+            set(&mut o, 4, "First", r(SCALE_FIRST));
+            for j in 0..len {
+                let id = SCALE_FIRST + j;
+                let mut item = dictionary! { "Title" => s(format!("T{}", j).as_bytes()), "Dest" => dest(), "Parent" => r(if j == 0 { 4 } else { id - 1 }) };
+                if let Some(next) = if id < last { Some(r(id + 1)) } else { tail(SCALE_FIRST) } {
+                    if shape != 3 { item.set("First", next.clone()); }
+                    if shape != 2 { item.set("Next", next); }
+                }
+                o.insert((id, 0), d(item));
+            }
+        }
+        _ => {
+            let w = shape - 4;
+            o.insert((6, 0), d(dictionary! { "Kids" => times(r(SCALE_FIRST), w) }));
+            for j in 0..len {
+                let id = SCALE_FIRST + j;
+                let node = if id < last { dictionary! { "Kids" => times(r(id + 1), w) } } else { match tail(6) { Some(t) => dictionary! { "Kids" => times(t, w) }, None => dictionary! { "Names" => a(vec![s(b"k"), r(8)]) } } };
+                o.insert((id, 0), d(node));
+            }
+        }
+    }
+    make_doc(o, root_trailer())
+}
+
+fn label_scale(dg: &[usize]) -> String {
+    format!("n = {} nodes (objects {} to {}); {}; {}", SCALE_NODES[dg[0]], SCALE_FIRST, SCALE_FIRST as usize + SCALE_NODES[dg[0]] - 1, SCALE_SHAPES[dg[1]], SCALE_ENDS[dg[2]])
+}
+
+/// documents larger than this are recorded as (family, index, tier) and regenerated on replay instead of being written out
+const INLINE_OBJECTS: usize = 400;
+
 fn families() -> Vec<Family> {
     let mut out = vec![];
-    let plain = |name, what, base: Vec<(u32, Object)>, slots, insts| Family { name, what, base: base.into_iter().map(|(k, v)| ((k, 0), v)).collect(), trailer: root_trailer(), slots, custom: None, insts };
+    let plain = |name, what, base: Vec<(u32, Object)>, slots, insts| Family { name, what, base: base.into_iter().map(|(k, v)| ((k, 0), v)).collect(), trailer: root_trailer(), slots, custom: None, label: None, insts };
 
     // ---- lookup: 3 objects at sparse ids (a gap and a non-zero generation), every object one of 8 kinds
     {
@@ -467,7 +561,7 @@ fn families() -> Vec<Family> {
         out.push(Family { name: "lookup", what: "objects 1 0, 2 0, 5 3 each one of {ref to each of the three, ref 5 0 (wrong generation), ref 9 0 (dangling), integer, dictionary, array}; lookups of the 3 ids and of 5 0 and 9 0",
             base: vec![], trailer: Dictionary::new(),
             slots: vec![Slot { tgt: Tgt::Whole((1, 0)), vals: w(), nq: 8 }, Slot { tgt: Tgt::Whole((2, 0)), vals: w(), nq: 8 }, Slot { tgt: Tgt::Whole((5, 3)), vals: w(), nq: 8 }],
-            custom: None, insts });
+            custom: None, label: None, insts });
     }
     // ---- chain: a chain of n references hanging under /Contents /Resources /Annots /Title /Dest /ToUnicode
     {
@@ -477,7 +571,7 @@ fn families() -> Vec<Family> {
         insts.extend(on(&[OutlineNode], 5));
         insts.extend(on(&[FontEncoding], 8));
         out.push(Family { name: "chain", what: "a chain of n in {1,2,3,6,127,128,129,130,300} references starting at object 10 and ending in {integer, dangling ref, ref back to 10, ref to itself, dictionary, stream, array}, used as /Contents /Resources /Annots of the page, /Title /Dest of an outline item and /ToUnicode of a font",
-            base: vec![], trailer: Dictionary::new(), slots: vec![], custom: Some((build_chain, vec![CHAIN_LENS.len(), CHAIN_ENDS], vec![CHAIN_LENS.len(), CHAIN_ENDS])), insts });
+            base: vec![], trailer: Dictionary::new(), slots: vec![], custom: Some((build_chain, vec![CHAIN_LENS.len(), CHAIN_ENDS], vec![CHAIN_LENS.len(), CHAIN_ENDS])), label: None, insts });
     }
     // ---- root: trailer /Root x kind of object 1 x catalog /Pages
     {
@@ -714,7 +808,17 @@ fn families() -> Vec<Family> {
         let mut insts = on(&[Catalog, GetPages, PageIter, ExtractText, Outlines, Toc], 0);
         for id in 1..=3 { insts.extend(on(&[PageContents, PageContent, PageResources, PageFonts, PageAnnots, PageImages, ObjectPage, NamedDests, FontEncoding, OutlineNode, Accessors], id)); }
         out.push(Family { name: "uniform", what: "3 dictionaries, object 1 the trailer /Root; dictionary j has /Type t_j in {Pages, Page, Font, absent} and binds all of 29 keys (Kids Parent Count Contents Resources Font XObject ColorSpace Annots Outlines Dests Names Pages Dest A D S Title Encoding ToUnicode Filter DecodeParms Length F1 Im1 Subtype Width Height BitsPerComponent) to one value v_j in {ref 1, ref 2, [ref 1 ref 2 ref 3], dangling ref, ref 3, no keys}: all 24^3 graphs",
-            base: vec![], trailer: Dictionary::new(), slots: vec![], custom: Some((build_uniform, vec![6, 4, 6, 4, 6, 4], vec![4, 3, 4, 3, 4, 3])), insts });
+            base: vec![], trailer: Dictionary::new(), slots: vec![], custom: Some((build_uniform, vec![6, 4, 6, 4, 6, 4], vec![4, 3, 4, 3, 4, 3])), label: None, insts });
+    }
+    // ---- scale: the number of linked nodes and the sharing of nodes, per link kind
+    {
+        let mut insts = on(&[GetPages, PageIter, ExtractText, Outlines, Toc], 0);
+        insts.extend(on(&[PageResources, PageFonts, PageImages, PageAnnots, ObjectPage], 3));
+        insts.extend(on(&[NamedDests], 6));
+        insts.extend(on(&[NamedDests, OutlineNode, PageResources], SCALE_FIRST));
+        out.push(Family { name: "scale", what: "n linked nodes, n in {1,2,3,8,12,40,64,255,256,257,258,1000,4000,16000; thorough also 65536, 262144} x shape in 7 {page tree of n nested /Pages nodes with /Parent links back up and /Resources only on the root, its /Kids arrays listing the kid once | twice; outline of n items linked by /First | by /Next | by /First and /Next to the same item; name tree of n nested /Kids nodes listing the kid once | twice} x last link in 4 {proper leaf, dangling, back to the first node, to itself}; the doubled links make an acyclic graph of n nodes with 2^n paths; CPU budget grows by 10 us per object",
+            base: vec![], trailer: Dictionary::new(), slots: vec![],
+            custom: Some((build_scale, vec![SCALE_NODES.len(), SCALE_SHAPES.len(), SCALE_ENDS.len()], vec![SCALE_NODES_QUICK, SCALE_SHAPES.len(), SCALE_ENDS.len()])), label: Some(label_scale), insts });
     }
     out
 }
@@ -774,7 +878,7 @@ fn worker_range(fam: &Family, thorough: bool, start_idx: u64, start_k: usize, en
                 pending.push_str(&format!("{} {} ", idx, k));
                 raw_write(&pending);
                 pending.clear();
-                pending.push_str(&eval_code(&doc, kind, arg, CPU_MS_RUN, false));
+                pending.push_str(&eval_code(&doc, kind, arg, cpu_budget(CPU_MS_RUN, &doc), false));
                 pending.push('\n');
             }
         }
@@ -792,7 +896,7 @@ fn worker_json(path: &str) -> ! {
     let (doc, kind, arg) = case_from_json(&v).expect("case");
     in_thread(move || {
         raw_write("0 0 ");
-        let code = eval_code(&doc, kind, arg, CPU_MS_REPLAY, true);
+        let code = eval_code(&doc, kind, arg, cpu_budget(CPU_MS_REPLAY, &doc), true);
         raw_write(&format!("{}\ndone\n", code));
     });
     std::process::exit(0);
@@ -880,6 +984,11 @@ fn run_chunk(fam: &Family, thorough: bool, lo: u64, hi: u64) -> ChunkOut {
 fn case_json(fam: &Family, thorough: bool, idx: u64, k: usize) -> Value {
     let doc = fam.build(idx, thorough);
     let (kind, arg) = fam.insts[k];
+    if doc.objects.len() > INLINE_OBJECTS {
+        // too large to write out: replay regenerates it from (family, index, tier)
+        return json!({"family": fam.name, "index": idx, "thorough": thorough, "query": kind_name(kind), "arg": [arg.0, arg.1], "generated": true,
+                      "object_count": doc.objects.len(), "document": fam.label.map(|l| l(&fam.digits(idx, thorough))).unwrap_or_default()});
+    }
     json!({"family": fam.name, "index": idx, "thorough": thorough, "query": kind_name(kind), "arg": [arg.0, arg.1],
            "objects": doc.objects.iter().map(|(id, o)| json!({"id": id.0, "gen": id.1, "obj": obj_json(o)})).collect::<Vec<_>>(),
            "trailer": doc.trailer.iter().map(|(k, v)| json!([hex(k), obj_json(v)])).collect::<Vec<_>>()})
@@ -888,6 +997,13 @@ fn case_json(fam: &Family, thorough: bool, idx: u64, k: usize) -> Value {
 fn case_from_json(v: &Value) -> Result<(Document, Kind, ObjectId), String> {
     let kind = kind_from(v["query"].as_str().unwrap_or("")).ok_or("unknown query")?;
     let arg = (v["arg"][0].as_u64().unwrap_or(0) as u32, v["arg"][1].as_u64().unwrap_or(0) as u16);
+    if v["generated"].as_bool() == Some(true) {
+        let fams = families();
+        let fam = fams.iter().find(|f| Some(f.name) == v["family"].as_str()).ok_or("unknown family")?;
+        let (idx, thorough) = (v["index"].as_u64().ok_or("index")?, v["thorough"].as_bool().ok_or("thorough")?);
+        if idx >= fam.count(thorough) { return Err("index outside the family".into()); }
+        return Ok((fam.build(idx, thorough), kind, arg));
+    }
     let mut objects = BTreeMap::new();
     for e in v["objects"].as_array().ok_or("objects")? {
         objects.insert((e["id"].as_u64().ok_or("id")? as u32, e["gen"].as_u64().ok_or("gen")? as u16), obj_from_json(&e["obj"]));
@@ -914,7 +1030,7 @@ pub fn run(thorough: bool) -> Report {
     if let Some(p) = args.iter().position(|a| a == "--c13-json") { worker_json(&args[p + 1]); }
 
     let fams = families();
-    let mut bound = format!("typed-chaos documents, {} families, each the full product of its slot alphabets (alphabet sizes in parentheses; the quick tier uses a prefix of each alphabet), every listed query evaluated on every document in a worker process ({} ms CPU budget, {} MiB stack, {} GiB address space per evaluation): ", fams.len(), CPU_MS_RUN, STACK >> 20, AS_LIMIT >> 30);
+    let mut bound = format!("typed-chaos documents, {} families, each the full product of its slot alphabets (alphabet sizes in parentheses; the quick tier uses a prefix of each alphabet), every listed query evaluated on every document in a worker process ({} ms + {} us per object of the document CPU budget, {} MiB stack, {} GiB address space per evaluation): ", fams.len(), CPU_MS_RUN, CPU_US_PER_OBJECT, STACK >> 20, AS_LIMIT >> 30);
     for f in &fams {
         let mut q: Vec<String> = vec![];
         for (k, id) in &f.insts { let t = if id.0 == 0 { kind_name(*k).to_string() } else { format!("{}({})", kind_name(*k), id.0) }; if !q.contains(&t) { q.push(t); } }
@@ -931,11 +1047,12 @@ pub fn run(thorough: bool) -> Report {
     let mut chunks: Vec<(usize, u64, u64)> = vec![];
     for (fi, f) in fams.iter().enumerate() {
         let total = f.count(thorough);
-        let size = (total / 256).clamp(8, 1500);
+        // the documents of a labelled (generated) family are large: one document per worker
+        let size = if f.label.is_some() { 1 } else { (total / 256).clamp(8, 1500) };
         let mut lo = 0;
         while lo < total { let hi = (lo + size).min(total); chunks.push((fi, lo, hi)); lo = hi; }
     }
-    let results: Vec<ChunkOut> = chunks.par_iter().map(|(fi, lo, hi)| run_chunk(&fams[*fi], thorough, *lo, *hi)).collect();
+    let results: Vec<ChunkOut> = chunks.par_iter().with_max_len(1).map(|(fi, lo, hi)| run_chunk(&fams[*fi], thorough, *lo, *hi)).collect(); // chunks differ widely in cost: every chunk is a job of its own
 
     // failures: per obligation keep the first input of up to 3 DISTINCT observations (panic sites), in index order
     let mut tally: BTreeMap<String, u64> = BTreeMap::new();
@@ -967,7 +1084,9 @@ pub fn run(thorough: bool) -> Report {
         let fam = &fams[fi];
         let input = case_json(fam, thorough, f.idx, f.k);
         let (kind, arg) = fam.insts[f.k];
-        let detail = format!("{} with argument {:?} on document #{} of family {}: {} -- document: {}", kind_name(kind), arg, f.idx, fam.name, f.observed, describe_doc(&fam.build(f.idx, thorough)));
+        let doc = fam.build(f.idx, thorough);
+        let label = fam.label.map(|l| format!(" ({}; {} objects, CPU budget {} ms)", l(&fam.digits(f.idx, thorough)), doc.objects.len(), cpu_budget(CPU_MS_RUN, &doc))).unwrap_or_default();
+        let detail = format!("{} with argument {:?} on document #{} of family {}{}: {} -- document: {}", kind_name(kind), arg, f.idx, fam.name, label, f.observed, describe_doc(&doc));
         rep.fail(&f.obligation, detail, input, f.observed);
     }
     if !tally.is_empty() {
